@@ -468,7 +468,17 @@ theorem no_panic_load_cache_data :
     obtain ⟨n, hn⟩ := cleanupAll_ok k peers (h peers rfl)
     simp [hn, Res.isPanic]
 
-theorem no_panic_is_reliable (s f : Nat) : isReliable s f = decide (s ≥ f) := by
+/-- The other routines of ant-bootstrap that consume the counters and addresses a cache file / `ANT_PEERS` supplied
+have no panic site of their own: `is_reliable` is the bare comparison the source spells (no arithmetic),
+`get_sorted_addrs` sorts by `failure_rate() as u64` (`no_panic_failure_rate`), `BootstrapAddr::sync` adds with
+`saturating_add`, `update_status` with `checked_add` (both shapes checked by the translator),
+`BootstrapAddresses::sync`, `PeersArgs::get_bootstrap_addr` / `get_addrs`.  (Round 6: this used to restate the
+definition of `isReliable` only.) -/
+theorem no_panic_is_reliable :
+    isReliableSites = [] ∧ sortedAddrsSites = [] ∧ bootstrapAddrSyncSites = [] ∧ updateStatusSites = [] ∧
+    bootstrapAddressesSyncSites = [] ∧ getBootstrapAddrSites = [] ∧ getAddrsSites = [] ∧
+    ∀ s f : Nat, isReliable s f = decide (s ≥ f) := by
+  refine ⟨by decide, by decide, by decide, by decide, by decide, by decide, by decide, fun s f => ?_⟩
   simp [isReliable, reliableCmp, Cmp.holds]
 
 /-! ## multiaddr, node registry, token amounts -/
